@@ -405,4 +405,182 @@ def rule_identity(P):
     return R
 
 
-RULES = [rule_recycle_gate, rule_node_items, rule_dead_before_return, rule_identity]
+SET_KIND = {"setI": "I", "setL": "L", "setN": "N", "setF": "F", "setD": "D", "setG": "G", "set": "V"}
+GET_KIND = {"getI": "I", "getL": "L", "getN": "N", "getF": "F", "getD": "D", "getG": "G", "get": "V"}
+
+
+def _seqs(g, start, stop_pred, item):
+    """all distinct sequences of item(node) (non-None) along paths from start until a node with stop_pred (or the exit)"""
+    out = set()
+    seen = set()
+    stack = [(start, ())]
+    while stack:
+        x, seq = stack.pop()
+        if (x, seq) in seen:
+            continue
+        seen.add((x, seq))
+        if len(seen) > 200000:
+            raise AnalysisBroken("ct.schema: path enumeration exploded in %s" % g.fn["inst"])
+        n = g.nodes[x]
+        it = item(n)
+        if it is not None:
+            seq = seq + (it,)
+        if stop_pred(n) or not n.succ:
+            if n.kind != "throw":
+                out.add(seq)
+            continue
+        for s, _ in n.succ:
+            stack.append((s, seq))
+    return out
+
+
+def _shape_in(s, shapes):
+    """shape membership with '?' (policy-chosen scalar kind) matching any non-node kind"""
+    for t in shapes:
+        # 'V' = an edge_value object: it carries its own scalar type, so it fits a slot declared L/F/D (mdd2index stores a
+        # long through an edge_value), but never a node slot and never the 'I' slot that holds the level
+        if len(t) == len(s) and all(a == b or (a == "?" and b != "N") or (b == "?" and a != "N") or ({a, b} <= {"V", "L", "F", "D"}) for a, b in zip(s, t)):
+            return True
+    return False
+
+
+def _schema_arg_kind(a):
+    a = a.strip()
+    if a.startswith("'") and len(a) >= 3:
+        return a[1]
+    if "edgeValueTypeLetter" in a or "getEdgeType" in a:
+        return "V"
+    if "getCTletter" in a:
+        return "?"      # result type chosen by a policy class (cardinality, range): any scalar kind
+    if a.startswith("ct_itemtype("):
+        return _schema_arg_kind(a[len("ct_itemtype("):-1])
+    return "N:" + a.replace("this->", "")
+
+
+def rule_schema(P):
+    R = RuleResult("ct.schema", "for every new-style entry type, the shapes of the key and of the result built by the compute functions are shapes the constructor declared (item kinds I/L/N/V… in order, same count), and every declared key shape is used")
+    op_classes = P.subclasses(M + "operation")
+    n_types = 0
+    for cls in sorted({f["cls"] for f in P.fns.values() if f.get("ctor") and f.get("class") in op_classes}):
+        ctors = [f for f in P.fns.values() if f.get("ctor") and f.get("cls") == cls and f.get("cfg")]
+        members = set()
+        for c in ctors:
+            for b in c["cfg"]["blocks"]:
+                for ev in b["ev"]:
+                    if ev["k"] == "store" and ev.get("rhsnew") == "ct_entry_type":
+                        members.add(ev["member"])
+        if not members:
+            continue
+        # declared shapes, per entry type member
+        declared_key, declared_res = {}, {}
+        for m in sorted(members):
+            ks, rs = set(), set()
+            for c in ctors:
+                g = Graph(c)
+                def item(n, m=m):
+                    if n.kind == "call" and n.ev.get("recvq") == m and n.ev["q"].startswith(M + "ct_entry_type::"):
+                        nm = n.ev["q"].split("::")[-1]
+                        if nm in ("setFixed", "appendFixed", "setRepeat", "appendRepeat", "setResult", "appendResult"):
+                            return (nm, tuple(_schema_arg_kind(a) for a in n.ev["args"]))
+                    return None
+                created = [n for n in g.nodes if n.kind == "store" and n.ev["member"] == m and n.ev.get("rhsnew") == "ct_entry_type"]
+                for cr in created:
+                    for seq in _seqs(g, cr.id, lambda n: n.id == g.exit, item):
+                        key, res, rep = [], [], []
+                        for nm, kinds in seq:
+                            if nm == "setFixed":
+                                key = list(kinds)
+                            elif nm == "appendFixed":
+                                key += list(kinds)
+                            elif nm in ("setRepeat", "appendRepeat"):
+                                rep += list(kinds)
+                            elif nm == "setResult":
+                                res = list(kinds)
+                            elif nm == "appendResult":
+                                res += list(kinds)
+                        if rep:
+                            continue    # repeating keys: variable length, not compared
+                        if key:
+                            ks.add(tuple(k[0] for k in key))
+                        if res:
+                            rs.add(tuple(k[0] for k in res))
+            if ks:
+                declared_key[m] = ks
+                declared_res[m] = rs
+        if not declared_key:
+            continue
+        all_key = set().union(*declared_key.values())
+        all_res = set().union(*declared_res.values())
+        # uses
+        used_key = set()
+        for f in sorted((f for f in P.fns.values() if f.get("cls") == cls and f.get("cfg") and not f.get("ctor") and not f.get("dtor")), key=lambda f: f["line"]):
+            g = Graph(f)
+            finds = [n for n in g.nodes if n.kind == "call" and qmatch(n.ev["q"], "ct_entry_type::findCT") and n.ev.get("recvq") in members]
+            adds = [n for n in g.nodes if n.kind == "call" and qmatch(n.ev["q"], "ct_entry_type::addCT") and n.ev.get("recvq") in members]
+            if not finds and not adds:
+                continue
+            R.functions.add(f["inst"])
+            def kind_of(n, vec):
+                if n.kind != "call":
+                    return None
+                if n.ev["q"].startswith(M + "ct_item::") and n.ev.get("recv", "").startswith(vec + "["):
+                    nm = n.ev["q"].split("::")[-1]
+                    if nm == "set":
+                        sig = n.ev.get("sig", "")
+                        return {"(long)": "L", "(int)": "I", "(float)": "F", "(double)": "D"}.get(sig, "V")
+                    return SET_KIND.get(nm)
+                # the item handed to a policy helper (RTYPE::set(res[0], value)): kind chosen by the policy
+                if not n.ev["q"].startswith(M + "ct_item::") and not n.ev["q"].startswith(M + "ct_vector::") and n.ev["q"].split("::")[-1] == "set" \
+                        and n.ev["args"] and n.ev["args"][0].startswith(vec + "["):
+                    return "?"
+                return None
+            key_item = lambda n: kind_of(n, "key")
+            res_item = lambda n: kind_of(n, "res")
+            if finds:
+                R.paths += 1
+                shapes = {s for s in _seqs(g, g.entry, lambda n: n in finds, key_item) if s}
+                # only paths that actually reach a lookup
+                shapes_reaching = set()
+                for fn_ in finds:
+                    pass
+                bad = sorted(s for s in shapes if not _shape_in(s, all_key))
+                used_key |= shapes
+                iid = "%s: key shapes %s ⊆ declared %s" % (f["inst"].replace(M, "")[:80], sorted("".join(s) for s in shapes), sorted("".join(s) for s in all_key))
+                if shapes and not bad:
+                    R.ok(iid, where(f, finds[0].line))
+                else:
+                    R.fail(iid, where(f, finds[0].line), Finding(R.rule, f["file"], base_name(f["q"]), "key-shape",
+                           "the key handed to findCT has item kinds %s, which the constructor never declares (declared: %s): slots are then read with the wrong type/forest" % (
+                               [" ".join(s) for s in bad] or "none", sorted(" ".join(s) for s in all_key)), finds[0].line, inst=f["inst"]))
+            if adds:
+                R.paths += 1
+                shapes = set()
+                for a in adds:
+                    # result items written between the last failed lookup and this add
+                    starts = finds or [g.nodes[g.entry]]
+                    for st in starts:
+                        for s in _seqs(g, st.id, lambda n, a=a: n.id == a.id, res_item):
+                            if s and g.path(st, lambda n, a=a: n.id == a.id) is not None:
+                                shapes.add(s)
+                bad = sorted(s for s in shapes if not _shape_in(s, all_res))
+                iid = "%s: result shapes %s ⊆ declared %s" % (f["inst"].replace(M, "")[:80], sorted("".join(s) for s in shapes), sorted("".join(s) for s in all_res))
+                if shapes and not bad:
+                    R.ok(iid, where(f, adds[0].line))
+                else:
+                    R.fail(iid, where(f, adds[0].line), Finding(R.rule, f["file"], base_name(f["q"]), "result-shape",
+                           "the result handed to addCT has item kinds %s, not a declared result shape (%s)" % ([" ".join(s) for s in bad] or "none", sorted(" ".join(s) for s in all_res)), adds[0].line, inst=f["inst"]))
+        n_types += len(declared_key)
+        unused = sorted(s for s in all_key if not _shape_in(s, used_key))
+        iid = "%s: every declared key shape is built by some compute path" % cls.replace(M, "")[:90]
+        if used_key and not unused:
+            R.ok(iid, "src/%s" % ctors[0]["file"])
+        elif used_key:
+            R.fail(iid, where(ctors[0]), Finding(R.rule, ctors[0]["file"], base_name(ctors[0]["q"]), "unused-shape",
+                   "the constructor declares key shape(s) %s that no compute path builds: constructor and compute disagree on when the level is part of the key" % [" ".join(s) for s in unused], ctors[0]["line"], inst=ctors[0]["inst"]))
+    if n_types < 20:
+        raise AnalysisBroken("ct.schema: only %d new-style entry types found, expected the ≈25 of the anchored operations" % n_types)
+    R.require_floor(60, "key/result shape obligations")
+    return R
+
+
+RULES = [rule_recycle_gate, rule_node_items, rule_dead_before_return, rule_identity, rule_schema]
